@@ -80,8 +80,9 @@ def o2_5a_recover_wal_records(mir, tier):
                 m = ex.model(Not(post))
                 if m is not None:
                     res.violations.append({'label': label, 'records': R, 'events': [str(e) for e in evs],
-                                           'replay': ['db_scenario', 'P6b31=01', 'B6b32=02+6b33=03+6b34=04', 'R', 'G6b31', 'G6b32', 'G6b33', 'G6b34', 'P6b35=05', 'G6b34', 'G6b35', 'I'] if 'last sequence' in label else None,
-                                           'confirmed_by': None if 'last sequence' in label else {'reproduced': False, 'detail': 'no native scenario for this label'}})
+                                           'replay': ['db_scenario', 'P6b31=01', 'B6b32=02+6b33=03+6b34=04', 'R', 'G6b31', 'G6b32', 'G6b33', 'G6b34', 'P6b35=05', 'G6b34', 'G6b35', 'I'] if 'last sequence' in label else
+                                                     (SHORT_RECORDS if 'not every WAL record' in label else None),
+                                           'confirmed_by': None if ('last sequence' in label or 'not every WAL record' in label) else {'reproduced': False, 'detail': 'no native scenario for this label'}})
         env = {'$state': {'events': [], 'next': 0, 'n': 0}, '$db': {'abstract': True, '__ty': 'DB'}, '$g': {'abstract': True}, '$guard': Ref('$g'), '$cm': {'abstract': True}}
         ex.top(fn, [Ref('$db'), Ref('$guard'), BitVec('wal_number', 64), is_last, Ref('$cm')], env, pre, k)
         ex.bound_hits = []
@@ -89,6 +90,10 @@ def o2_5a_recover_wal_records(mir, tier):
     res.wall_s = time.time() - t0
     if res.violations: res.status = 'violation'
     return res
+
+
+# the shortest records a WAL can hold: a delete of the empty key alone (11 bytes), a delete of a one-byte key (12), a put of an empty value
+SHORT_RECORDS = ['db_scenario', 'P=01', 'D', 'P61=02', 'D61', 'P62=', 'R', 'G', 'G61', 'G62', 'I', 'P63=03', 'R', 'G', 'G63', 'I']
 
 
 def scenario_confirm(v, out):
